@@ -16,7 +16,7 @@ RULE = ("complete grid of generator programs {raise before yield, no yield, yiel
         "re-raise, raise new, raise new from None, raise same type, return, yield again, raise StopAsyncIteration, "
         "raise StopIteration} x {stop, yield again, raise afterwards} x block outcome {normal, ValueError, "
         "BaseException, StopIteration, StopAsyncIteration, RuntimeError, GeneratorExit, KeyboardInterrupt, custom} "
-        "= 891 programs, each without and with suspensions inside the generator and with constructor arguments; "
+        "= 1620 programs (20 handler kinds incl. RuntimeError/BaseException raised with and without cause, raising finally blocks), each without and with suspensions inside the generator and with constructor arguments; "
         "value bound by async with, the generator's own event log and the final outcome (suppressed / same object "
         "propagates / type of a different exception) are compared with contextlib.asynccontextmanager on a fresh "
         "instance of the same program; for GeneratorExit the documented deviation is the reference (generator "
@@ -34,7 +34,10 @@ class New(Exception):
 
 PRE = ["raise", "noyield", "yield"]
 HANDLER = ["none", "finally", "swallow", "reraise", "raise_new", "raise_new_from_none", "raise_same_type", "return",
-           "yield_again", "raise_sai", "raise_si"]
+           "yield_again", "raise_sai", "raise_si",
+           # the type and chaining of what the generator raises matters to the classification in __aexit__
+           "raise_new_from_exc", "raise_runtime", "raise_runtime_from_none", "raise_runtime_from_exc",
+           "raise_same_object", "raise_base", "finally_raise_new", "finally_raise_runtime", "finally_return"]
 AFTER = ["stop", "yield_again", "raise"]
 OUTCOME = {"normal": None, "ValueError": ValueError, "BaseException": BaseException, "StopIteration": StopIteration,
            "StopAsyncIteration": StopAsyncIteration, "RuntimeError": RuntimeError, "GeneratorExit": GeneratorExit,
@@ -68,6 +71,20 @@ def make(pre, handler, after, log, susp):
                 log.append("resumed")
             finally:
                 log.append("finally")
+        elif handler in ("finally_raise_new", "finally_raise_runtime"):
+            try:
+                yield "V"
+                log.append("resumed")
+            finally:
+                log.append("finally")
+                raise (New if handler == "finally_raise_new" else RuntimeError)("cleanup failed")
+        elif handler == "finally_return":
+            try:
+                yield "V"
+                log.append("resumed")
+            finally:
+                log.append("finally")
+                return  # noqa: B012 - swallows whatever was thrown in
         else:
             try:
                 yield "V"
@@ -95,6 +112,18 @@ def make(pre, handler, after, log, susp):
                     raise StopAsyncIteration("g")
                 elif handler == "raise_si":
                     raise StopIteration("g")
+                elif handler == "raise_new_from_exc":
+                    raise New("h") from e
+                elif handler == "raise_runtime":
+                    raise RuntimeError("h")
+                elif handler == "raise_runtime_from_none":
+                    raise RuntimeError("h") from None
+                elif handler == "raise_runtime_from_exc":
+                    raise RuntimeError("h") from e
+                elif handler == "raise_same_object":
+                    raise e
+                elif handler == "raise_base":
+                    raise BaseException("h")
         if susp:
             await Suspend("gen-post", susp)
         if after == "yield_again":
